@@ -2,6 +2,9 @@
 """Regenerates MANIFEST.json from the table below (kept valid at all times)."""
 import json, sys
 CLAIMED = {
+ "C16": dict(level="exploration", tech="enumeration of a feature x declared-version grid (correctly signed crafted blocks) + property-based testing of generated tokens against a feature->version reference table (RefVersion) and the signature-version rule (RefCrypto)",
+   text="One block per feature (every operator in rules and checks, every term type at depth 0-2 in every container, check kinds, scopes at every level) goes through the three builder paths and must declare the version RefVersion computes; each block is then re-declared with every version 0..=8 and signed by RefSigner: out-of-range or under-declared blocks must not reach evaluation, correctly declared ones must. Generated tokens over all key-algorithm sequences must use the signature version the rule prescribes, never decreasing, and declare RefVersion's datalog versions.",
+   note="RefVersion is transcribed from the specification; the grid is enumerated completely, combinations are sampled", ref="4 C16"),
  "C01": dict(level="fault_enumeration", tech="fault enumeration by generated structured wire mutations (proptest tape) with a signed-blocks equality oracle and an independent verifier (RefCrypto)",
    text="For generated tokens (all algorithm mixes, first/third-party blocks, sealed or not) and a donor token (independent, same root, or sibling attenuation), every mutation kind of the catalogue (50 kinds: payload, next key, signature, version, external signature, container, proof, byte level) is applied at every block index and the variant is presented on all three entry points, plus four foreign root keys. An accepted variant must carry exactly the signed blocks of a legitimately issued token of the case, and RefCrypto must accept what the library accepted.",
    note="signature primitives trusted; mutation catalogue + random parameters, not all byte strings; v0 blocks are not required to bind the previous signature", ref="4 C01"),
